@@ -1120,6 +1120,14 @@ int parse_instruction_arm(AsmContext *asm_context, char *instr)
               return -1;
             }
 
+            // lsr #0, asr #0 and ror #0 have no encoding of their own (a
+            // shift field of 0 means lsr #32, asr #32 and rrx): as the
+            // architecture manual says, they are lsl #0.
+            if (operands[operand_count].value == 0)
+            {
+              operands[operand_count].sub_type = 0;
+            }
+
             operands[operand_count].type = OPERAND_SHIFT_IMMEDIATE;
           }
             else
